@@ -10,6 +10,7 @@ LOG=$D/verify.log
 git -C /repo worktree add -q --detach $WT HEAD >>$LOG 2>&1 || { echo "worktree failed" >>$LOG; exit 2; }
 cd $WT
 export CARGO_NET_OFFLINE=true
+export TMPDIR=/tmp/wt/tmp_$NAME; mkdir -p $TMPDIR
 res_suite=unknown; res_demo_with=unknown; res_demo_without=unknown
 if git apply --check $D/patch.diff >>$LOG 2>&1; then
   git apply $D/patch.diff
@@ -51,4 +52,4 @@ else
   res_suite="patch does not apply"
 fi
 echo "suite_with_patch=$res_suite demo_with_patch=$res_demo_with demo_without_patch=$res_demo_without" | tee -a $LOG
-cd /; git -C /repo worktree remove --force $WT
+cd /; git -C /repo worktree remove --force $WT; rm -rf /tmp/wt/tmp_$NAME
